@@ -202,6 +202,11 @@ func finalClose(w *World, x *vrt.Exec) {
 					e.Name, c.Start, c.Thread, x.Elapsed-c.Start)
 				continue
 			}
+			if c.Busy != "" {
+				w.fail("close/returned-mid-teardown/"+e.Name,
+					"%s: Close called at %v by %s returned at %v with %s",
+					e.Name, c.Start, c.Thread, c.End, c.Busy)
+			}
 			if c.End-c.Start > bound {
 				w.fail("close/slow/"+e.Name, "%s: Close called at %v took %v (bound %v)",
 					e.Name, c.Start, c.End-c.Start, bound)
@@ -216,6 +221,10 @@ func finalClose(w *World, x *vrt.Exec) {
 		}
 		if firstCloseReturn < 0 {
 			continue
+		}
+		if e.lateTransport != "" {
+			w.fail("close/transport-used-after-close/"+e.Name,
+				"%s: after a Close call had returned the connection called into its transport again (%s)", e.Name, e.lateTransport)
 		}
 		w.reached["closed:"+e.Name] = true
 		// Calls issued after Close returned must fail at once; calls
